@@ -17,8 +17,11 @@ OkClauses(e, o) ==
   LET ob == e.obs
       ok(c, name) == IF c THEN {} ELSE {name}
       og == ob.origen
-  IN ok(Has_(og, "area") /\ og.area.origin = o.area.origin /\ og.area.milli = o.area.milli, "area_echo")
-     \cup ok(Has_(og, "kexp") /\ og.kexp.origin = o.kexp.origin /\ og.kexp.milli = o.kexp.milli, "kexp_echo")
+      \* the echo and the metadata state a value with two decimals: they agree with the value used when they are
+      \* that value rounded (half a printed unit = 5 thousandths); the value USED is compared exactly
+      Printed(x, v) == x - v \in -5..5
+  IN ok(Has_(og, "area") /\ og.area.origin = o.area.origin /\ Printed(og.area.milli, o.area.milli), "area_echo")
+     \cup ok(Has_(og, "kexp") /\ og.kexp.origin = o.kexp.origin /\ Printed(og.kexp.milli, o.kexp.milli), "kexp_echo")
      \cup ok(Has_(og, "fp") /\ og.fp.origin = o.fp.origin /\ og.fp.param = o.fp.param, "factors_echo")
      \cup ok(ob.json_written /\ ob.json.valid, "no_json_result")
      \cup (IF ob.json_written /\ ob.json.valid THEN
@@ -28,10 +31,14 @@ OkClauses(e, o) ==
              \cup ok(Has_(ob.json, "red1") /\ ob.json.red1 = o.red1, "red1_used")
              \cup ok(Has_(ob.json, "red2") /\ ob.json.red2 = o.red2, "red2_used")
            ELSE {})
-     \cup ok(Has_(ob.oc, "CTE_AREAREF") /\ ob.oc.CTE_AREAREF = o.area.milli, "area_not_recorded_in_metadata")
-     \cup ok(Has_(ob.oc, "CTE_KEXP") /\ ob.oc.CTE_KEXP = o.kexp.milli, "kexp_not_recorded_in_metadata")
+     \cup ok(Has_(ob.oc, "CTE_AREAREF") /\ Printed(ob.oc.CTE_AREAREF, o.area.milli), "area_not_recorded_in_metadata")
+     \cup ok(Has_(ob.oc, "CTE_KEXP") /\ Printed(ob.oc.CTE_KEXP, o.kexp.milli), "kexp_not_recorded_in_metadata")
      \cup ok(~o.red1given \/ (Has_(ob.oc, "CTE_RED1") /\ ob.oc.CTE_RED1 = o.red1), "red1_not_recorded_in_metadata")
      \cup ok(~o.red2given \/ (Has_(ob.oc, "CTE_RED2") /\ ob.oc.CTE_RED2 = o.red2), "red2_not_recorded_in_metadata")
+     \* the location the factors were generated from (option or metadata) is the one the emitted components record;
+     \* with a factors file no location is used and nothing is claimed
+     \cup ok(o.fp.origin = "archivo" \/ (Has_(ob.oc, "CTE_LOCALIZACION") /\ ob.oc.CTE_LOCALIZACION = o.fp.param),
+            "location_not_recorded_in_metadata")
 
 Judge(e) ==
   LET al == Allowed(e.cfg)
